@@ -145,6 +145,16 @@ def time_axis(draw, n, steps=None, regular=None):
     return t[:n], ds
 
 
+# large offsets: values of realistic big magnitude (pressures in Pa, epoch-like counters) that differ by small dyadic
+# steps. Every sum, difference and mean of two such values is still exact in float64 (2^40 + k/8 needs 44 bits), so
+# the oracles stay exact; tolerances that scale with magnitude (np.isclose) and cancellation-prone formulas do not.
+big_offset = st.sampled_from([0.0, 0.0, 0.0, 0.0, 2.0 ** 17, -(2.0 ** 22), 2.0 ** 30, 2.0 ** 40])
+
+
+def shifted(xs, off):
+    return [v if (v is None or v != v) else v + off for v in xs]
+
+
 def near(bounds, q=0.125, big=16.0):
     """Values on, just inside/outside and far from each bound."""
     pts = []
@@ -157,7 +167,7 @@ def near(bounds, q=0.125, big=16.0):
     return st.one_of(st.sampled_from(pts), dyadic())
 
 
-PROP_CARRIERS = ["f64", "f64", "f64", "list_none", "masked_junk", "masked_mixed", "masked_nan", "masked_int", "series"]
+PROP_CARRIERS = ["f64", "f64", "f64", "list_none", "masked_junk", "masked_mixed", "masked_nan", "masked_int", "masked_fill", "series"]
 
 
 def with_carrier(case_strategy):
